@@ -1325,7 +1325,19 @@ func (evmHarness) Gen(seed uint64, prop, tier string) *simkit.Program {
 		case 5:
 			add("fault", int64(r.Pick(2, 2, 4, 1, 1)), int64(r.Intn(3)), int64(r.Intn(3)))
 		case 6:
-			if r.P(0.5) {
+			if r.P(0.3) {
+				// a message is pending when head polls start failing: the watcher restarts, and while the
+				// new Run is still held up subscribing, the polls of its new poller fail as well
+				add("log", 0, int64(r.Intn(3)), int64(r.Intn(64)))
+				add("adv", p.Cfg["poll_ms"], 0, 0)
+				add("fault", 4, 1, 2) // subscribe: stall
+				add("fault", 0, 0, 2) // blockByNumber: error
+				add("adv", 5*p.Cfg["poll_ms"], 0, 0)
+				add("fault", 0, 0, 2)
+				add("adv", 6*p.Cfg["poll_ms"], 0, 0)
+				add("fault", 0, 0, 2)
+				add("adv", 8*p.Cfg["poll_ms"], 0, 0)
+			} else if r.P(0.5) {
 				add("subdrop", 0, 0, 0)
 			} else {
 				// the signing pipeline is busy while a message becomes due and an RPC fault restarts the watcher
